@@ -212,6 +212,68 @@ Definition c12_get_default (t : c12_tree) (p : list c12_str) (d : c12_str) : opt
   | Some false => Some d
   end.
 
+(* const sub(key, fail_if_missing): None = RangeError.  Intermediate segments are looked up with
+   fail_if_missing = false (a missing one yields the static empty tree), only the last one honours the flag *)
+Fixpoint c12_sub_const (t : c12_tree) (p : list c12_str) (fail : bool) : option c12_tree :=
+  match p with
+  | [] => Some t
+  | k :: rest =>
+    if c12_mem k (c12_vals t) then None
+    else match rest with
+         | [] => match c12_assoc k (c12_subs t) with
+                 | Some s => Some s
+                 | None => if fail then None else Some c12_empty
+                 end
+         | _ => c12_sub_const (match c12_assoc k (c12_subs t) with Some s => s | None => c12_empty end) rest fail
+         end
+  end.
+
+(* non-const sub(key): creates the subtrees on the way; (tree afterwards, false = RangeError) *)
+Fixpoint c12_sub_mut (t : c12_tree) (p : list c12_str) : c12_tree * bool :=
+  match p with
+  | [] => (t, true)
+  | k :: rest =>
+    if c12_mem k (c12_vals t) then (t, false)
+    else let s := match c12_assoc k (c12_subs t) with Some s => s | None => c12_empty end in
+         let '(s', ok) := c12_sub_mut s rest in
+         (C12Node (c12_vals t) (c12_assoc_set k s' (c12_subs t)), ok)
+  end.
+
+(* report(stream, prefix): std::map order = byte-wise lexicographic order of the keys; one line
+   key = "value"  per value, then per subtree  [ prefix prefix_ key ]  and its report.
+   [pfx] = the prefix argument followed by the node's prefix_ (the dotted path of the node + '.') *)
+Definition c12_byte_ltb (a b : ascii) : bool := (N_of_ascii a <? N_of_ascii b)%N.
+Fixpoint c12_str_ltb (a b : c12_str) : bool :=
+  match a, b with
+  | [], [] => false
+  | [], _ :: _ => true
+  | _ :: _, [] => false
+  | x :: a', y :: b' => if c12_byte_ltb x y then true else if c12_byte_ltb y x then false else c12_str_ltb a' b'
+  end.
+Fixpoint c12_insert {A} (k : c12_str) (a : A) (l : list (c12_str * A)) : list (c12_str * A) :=
+  match l with
+  | [] => [(k, a)]
+  | (k', a') :: r => if c12_str_ltb k k' then (k, a) :: l else (k', a') :: c12_insert k a r
+  end.
+Definition c12_sort {A} (l : list (c12_str * A)) : list (c12_str * A) :=
+  fold_right (fun kv acc => c12_insert (fst kv) (snd kv) acc) [] l.
+
+Definition c12_value_line (kv : c12_str * c12_str) : c12_str :=
+  fst kv ++ [" "; "="; " "; """"] ++ snd kv ++ [""""].
+Definition c12_header_line (pfx k : c12_str) : c12_str := ["["; " "] ++ pfx ++ k ++ [" "; "]"].
+
+Fixpoint c12_report_lines (t : c12_tree) (pfx : c12_str) : list c12_str :=
+  match t with
+  | C12Node vals subs =>
+    map c12_value_line (c12_sort vals) ++
+    concat (map snd (c12_sort
+      ((fix blocks (l : list (c12_str * c12_tree)) : list (c12_str * list c12_str) :=
+          match l with
+          | [] => []
+          | (k, s) :: r => (k, c12_header_line pfx k :: c12_report_lines s (pfx ++ k ++ ["."])) :: blocks r
+          end) subs)))
+  end.
+
 (* ---------------------------------------------------------------- 3. readINITree *)
 
 Inductive c12_status := C12Ok | C12RangeError | C12ParserError | C12HelpRequest | C12OutOfFuel.
@@ -501,18 +563,77 @@ Definition c12_extract_int (signed : bool) (lo hi : Z) (s : c12_str) : option Z 
     else c12_extract_tail signed lo hi false (c :: r)
   end.
 
-Inductive c12_ity := C12Int | C12Long | C12UInt | C12ULong.
+Inductive c12_ity := C12Int | C12Long | C12UInt | C12ULong | C12Short | C12UShort.
 Definition c12_ity_extract (ty : c12_ity) : c12_str -> option Z * c12_str * bool :=
   match ty with
   | C12Int => c12_extract_int true (- 2 ^ 31) (2 ^ 31 - 1)
   | C12Long => c12_extract_int true (- 2 ^ 63) (2 ^ 63 - 1)
   | C12UInt => c12_extract_int false 0 (2 ^ 32 - 1)
   | C12ULong => c12_extract_int false 0 (2 ^ 64 - 1)
+  | C12Short => c12_extract_int true (- 2 ^ 15) (2 ^ 15 - 1)
+  | C12UShort => c12_extract_int false 0 (2 ^ 16 - 1)
   end%Z.
+
+(* `s >> x` for double (modelled std::num_get::_M_extract_float + strtod): sign, digits, one '.', digits,
+   and -- only after a mantissa digit -- e/E, sign, digits; the collected text must be a complete
+   floating literal (a mantissa digit; exponent digits if an 'e' was taken).
+   The result is the EXACT decimal (negative?, mantissa m, exponent e) = (-1)^neg * m * 10^e; rounding
+   to binary64 and overflow are strtod's (checked against a correctly rounding conversion by the check). *)
+Definition c12_opt_sign (s : c12_str) : bool * c12_str :=
+  match s with
+  | c :: r => if Ascii.eqb c "-" then (true, r) else if Ascii.eqb c "+" then (false, r) else (false, s)
+  | [] => (false, s)
+  end.
+
+Definition c12_extract_double (s : c12_str) : option (bool * Z * Z) * c12_str * bool :=
+  match c12_skip_space s with
+  | [] => (None, [], true)
+  | s0 =>
+    let '(neg, s1) := c12_opt_sign s0 in
+    let '(m1, n1, s2) := c12_digits s1 0 O in
+    let '(m2, n2, s3) := match s2 with
+                         | c :: r2 => if Ascii.eqb c "." then c12_digits r2 m1 O else (m1, O, s2)
+                         | [] => (m1, O, s2)
+                         end in
+    match (n1 + n2)%nat with
+    | O => (None, s3, c12_is_nil s3)
+    | S _ =>
+      let plain := (Some (neg, m2, (- Z.of_nat n2)%Z), s3, c12_is_nil s3) in
+      match s3 with
+      | c :: r4 =>
+        if Ascii.eqb c "e" || Ascii.eqb c "E" then
+          let '(eneg, s5) := c12_opt_sign r4 in
+          let '(ev, en, s6) := c12_digits s5 0 O in
+          match en with
+          | O => (None, s6, c12_is_nil s6)
+          | S _ => (Some (neg, m2, ((if eneg then - ev else ev) - Z.of_nat n2)%Z), s6, c12_is_nil s6)
+          end
+        else plain
+      | [] => plain
+      end
+    end
+  end.
+
+(* `s >> x` for std::string (one blank-separated word) and for char (one non-blank character) *)
+Fixpoint c12_span_nonspace (s : c12_str) : c12_str * c12_str :=
+  match s with
+  | [] => ([], [])
+  | c :: r => if c12_is_space c then ([], s) else let '(w, rest) := c12_span_nonspace r in (c :: w, rest)
+  end.
+Definition c12_extract_word (s : c12_str) : option c12_str * c12_str * bool :=
+  match c12_skip_space s with
+  | [] => (None, [], true)
+  | s0 => let '(w, rest) := c12_span_nonspace s0 in (Some w, rest, c12_is_nil rest)
+  end.
+Definition c12_extract_char (s : c12_str) : option ascii * c12_str * bool :=
+  match c12_skip_space s with
+  | [] => (None, [], true)
+  | c :: rest => (Some c, rest, false)
+  end.
 
 (* Parser<T>::parse for arithmetic T:  s >> val; if(!s) throw; char dummy; s >> dummy;
    if(!s.fail() || !s.eof()) throw.   None = RangeError *)
-Definition c12_parse_scalar (ex : c12_str -> option Z * c12_str * bool) (s : c12_str) : option Z :=
+Definition c12_parse_scalar {A : Type} (ex : c12_str -> option A * c12_str * bool) (s : c12_str) : option A :=
   match ex s with
   | (Some v, rest, _) => if c12_is_nil (c12_skip_space rest) then Some v else None
   | _ => None
@@ -548,8 +669,8 @@ Definition c12_split (s : c12_str) : list c12_str := c12_split_aux s [].
 (* parseRange into n items.  [charprobe = false]: the code as it stands (`Value dummy; s >> dummy`,
    accepted when that extraction fails AT EOF);  [charprobe = true]: the repaired probe
    (`char dummy`, as in the scalar parser; fixes/C12-1.patch). *)
-Fixpoint c12_range_items (ex : c12_str -> option Z * c12_str * bool) (n : nat) (s : c12_str)
-  : option (list Z * c12_str) :=
+Fixpoint c12_range_items {A : Type} (ex : c12_str -> option A * c12_str * bool) (n : nat) (s : c12_str)
+  : option (list A * c12_str) :=
   match n with
   | O => Some ([], s)
   | S n' => match ex s with
@@ -562,8 +683,8 @@ Fixpoint c12_range_items (ex : c12_str -> option Z * c12_str * bool) (n : nat) (
             end
   end.
 
-Definition c12_parse_range (charprobe : bool) (ex : c12_str -> option Z * c12_str * bool)
-           (n : nat) (s : c12_str) : option (list Z) :=
+Definition c12_parse_range {A : Type} (charprobe : bool) (ex : c12_str -> option A * c12_str * bool)
+           (n : nat) (s : c12_str) : option (list A) :=
   match c12_range_items ex n s with
   | None => None
   | Some (vs, rest) =>
@@ -584,7 +705,7 @@ Fixpoint c12_all_some {A B} (f : A -> option B) (l : list A) : option (list B) :
               end
   end.
 
-Definition c12_parse_vector (ex : c12_str -> option Z * c12_str * bool) (s : c12_str) : option (list Z) :=
+Definition c12_parse_vector {A : Type} (ex : c12_str -> option A * c12_str * bool) (s : c12_str) : option (list A) :=
   c12_all_some (c12_parse_scalar ex) (c12_split s).
 
 Definition c12_parse_vector_string (s : c12_str) : list c12_str :=
